@@ -88,6 +88,9 @@ func deepCopy(v reflect.Value) reflect.Value {
 
 // GoName is the destination field name zog derives from a schema key.
 func GoName(key string) string {
+	if key == "" {
+		return key
+	}
 	if key[0] >= 'a' && key[0] <= 'z' {
 		return string(key[0]-32) + key[1:]
 	}
